@@ -76,7 +76,7 @@ Definition stats_match (shapes : list (Z * shape)) (keys : list Z) (ns_of : Z ->
   && forallb (fun fv => mem (fst fv) keys) got.
 
 (* (a) model = implementation, one invocation *)
-Definition model_ok1 (shapes : list (Z * shape)) (a : args) (st : stmt) (s : msession) (ob : lobs) : bool :=
+Definition model_ok1 (shapes : list (Z * shape)) (runs : bool) (a : args) (st : stmt) (s : msession) (ob : lobs) : bool :=
   let '(s', r) := m_lprun a st s in
   let reached := reaches a in
   let done := match r_kind r with KDone => true | _ => false end in
@@ -84,11 +84,11 @@ Definition model_ok1 (shapes : list (Z * shape)) (a : args) (st : stmt) (s : mse
   && Bool.eqb (lo_ret ob) (r_ret r)
   && oz_eqb (lo_b_before ob) (b_profile s)
   && oz_eqb (lo_b_after ob) (b_profile s')
-  && oz_eqb (lo_b_during ob) (if reached then Some (next_id s) else None)
+  && oz_eqb (lo_b_during ob) (if reached && runs then Some (next_id s) else None)
   && match r_prof r, lo_stats ob with
      | None, None => true
      | Some p, Some got => stats_match shapes (p_funcs p) (calls_of p) got
-                           && (lo_count_during ob =? 1) && (lo_count_after ob =? p_count p)
+                           && (lo_count_during ob =? (if runs then 1 else -1)) && (lo_count_after ob =? p_count p)
      | _, _ => false
      end
   && (zlen (lo_pages ob) =? zlen (pager s') - zlen (pager s))
@@ -109,7 +109,7 @@ Definition model_ok1 (shapes : list (Z * shape)) (a : args) (st : stmt) (s : mse
 
 (* (b) the property on the implementation's own output, one invocation.
    Everything except "builtins as found" ... *)
-Definition spec_other1 (shapes : list (Z * shape)) (a : args) (st : stmt) (k : Z) (ob : lobs) : bool :=
+Definition spec_other1 (shapes : list (Z * shape)) (runs : bool) (a : args) (st : stmt) (k : Z) (ob : lobs) : bool :=
   let reached := reaches a in
   let nm := named a in
   let ns_of := fun f => map snd (filter (fun c => fst c =? f) (s_calls st)) in
@@ -117,7 +117,7 @@ Definition spec_other1 (shapes : list (Z * shape)) (a : args) (st : stmt) (k : Z
     (* profiles the named functions and nothing else, for the statement only *)
     match lo_stats ob with
     | Some got => stats_match shapes nm (fun f => if mem f nm then ns_of f else []) got
-                  && (lo_count_during ob =? 1) && (lo_count_after ob =? 0) && lo_stable ob
+                  && (negb runs || (lo_count_during ob =? 1)) && (lo_count_after ob =? 0) && lo_stable ob
     | None => false
     end
     (* output on return, exit, interrupt; all outputs are one text / one snapshot *)
@@ -137,7 +137,7 @@ Definition spec_other1 (shapes : list (Z * shape)) (a : args) (st : stmt) (k : Z
     (* the user's namespace: the statement's own bindings only *)
     && zl_eqb (lo_ns_added ob) (s_binds st) && zl_eqb (lo_ns_removed ob) []
     && lo_builtins_other_same ob
-    && oz_eqb (lo_b_during ob) (Some (100 + k))
+    && (negb runs || oz_eqb (lo_b_during ob) (Some (100 + k)))
   else
     ((lo_kind ob =? 1) || (lo_kind ob =? 2))
     && zl_eqb (lo_pages ob) [] && negb (is_some (lo_T ob)) && negb (is_some (lo_D ob))
@@ -151,14 +151,17 @@ Definition restored (ob : lobs) : bool := oz_eqb (lo_b_before ob) (lo_b_after ob
 Definition leak_sig (k : Z) (ob : lobs) : bool :=
   negb (restored ob) && negb (is_some (lo_b_before ob)) && oz_eqb (lo_b_after ob) (Some (100 + k)).
 
-Record inv := Inv { i_args : args; i_stmt : stmt; i_obs : lobs }.
+(* i_runs = false: the statement does not compile (SyntaxError out of exec before its first
+   instruction): in the model a statement that makes no calls and ends in another exception;
+   what the statement would have seen in builtins cannot be observed then. *)
+Record inv := Inv { i_args : args; i_stmt : stmt; i_runs : bool; i_obs : lobs }.
 
 Fixpoint walk (shapes : list (Z * shape)) (xs : list inv) (k : Z) (s : msession) : bool * bool * bool :=
   match xs with
   | [] => (true, true, true)
   | x :: t =>
-      let m := model_ok1 shapes (i_args x) (i_stmt x) s (i_obs x) in
-      let o := spec_other1 shapes (i_args x) (i_stmt x) k (i_obs x)
+      let m := model_ok1 shapes (i_runs x) (i_args x) (i_stmt x) s (i_obs x) in
+      let o := spec_other1 shapes (i_runs x) (i_args x) (i_stmt x) k (i_obs x)
                && (restored (i_obs x) || leak_sig k (i_obs x)) in
       let l := negb (leak_sig k (i_obs x)) in
       let '(m', o', l') := walk shapes t (k + 1) (fst (m_lprun (i_args x) (i_stmt x) s)) in
@@ -176,7 +179,7 @@ Definition t_stmt : stmt := Stmt [(7, 3); (8, 3)] Return [].
 Definition t_obs (after : option Z) (h : Z) : lobs :=
   LObs 0 true None (Some 100) after true [] [] (Some [(7, [1; h; 3; 1])]) 1 0 true [5] None (Some 5) None 0 false false.
 Example selftest :
-  case_ok None t_shapes [Inv t_args t_stmt (t_obs (Some 100) 4)] = (false, true, false)
-  /\ case_ok None t_shapes [Inv t_args t_stmt (t_obs None 4)] = (true, true, true)
-  /\ case_ok None t_shapes [Inv t_args t_stmt (t_obs (Some 100) 5)] = (false, false, false).
+  case_ok None t_shapes [Inv t_args t_stmt true (t_obs (Some 100) 4)] = (false, true, false)
+  /\ case_ok None t_shapes [Inv t_args t_stmt true (t_obs None 4)] = (true, true, true)
+  /\ case_ok None t_shapes [Inv t_args t_stmt true (t_obs (Some 100) 5)] = (false, false, false).
 Proof. vm_compute. repeat split. Qed.
